@@ -298,11 +298,14 @@ def execute(scenario):
         if item[0] == "err":
             culprit = ["format=" + fmt]
             if fmt == "fixed":
-                padded = {}
-                for row in accepted:
-                    key = tuple(cell.ljust(width) for cell, width in zip(row, tabular.widths(spec)))
-                    padded.setdefault(key, set()).add(tuple(row))
-                if any(len(variants) > 1 for variants in padded.values()):
+                twins = False
+                for column, width in enumerate(tabular.widths(spec)):
+                    spellings = {}
+                    for row in accepted:
+                        if column < len(row):
+                            spellings.setdefault(row[column].ljust(width), set()).add(row[column])
+                    twins = twins or any(len(variants) > 1 for variants in spellings.values())
+                if twins:
                     # two accepted rows that differ only in how much of the padding the caller supplied
                     culprit.append("rows-differ-only-in-trailing-blanks")
             else:
